@@ -453,9 +453,14 @@ def ddmin(items, test, deadline):
     return items
 
 
-def shrink(mod, plan, cls, time_box=20.0):
+def shrink(mod, plan, cls, time_box=20.0, viol=None):
     deadline = time.monotonic() + time_box
     cur = json.loads(json.dumps(plan))
+    # 0. narrow an enumerated fault space to the one placement that failed
+    if viol is not None and hasattr(mod, 'narrow'):
+        cand = mod.narrow(cur, viol)
+        if cand is not None and _violates(mod, cand, cls) is not None:
+            cur = cand
     # 1. lists the module declares shrinkable by deletion (closed under deletion)
     for field in getattr(mod, 'DDMIN_FIELDS', ('ops',)):
         if isinstance(cur.get(field), list) and cur[field]:
@@ -621,7 +626,7 @@ def process_violations(mod, prop, tier, agg, out):
             if v0 is None:
                 out('HARNESS-ERROR nondeterministic: run %d (seed %d) reported %s but does not repeat' % (i, seed, cls))
                 return EXIT_HARNESS, unlisted, known
-            small = shrink(mod, plan, cls, shrink_box)
+            small = shrink(mod, plan, cls, shrink_box, v0)
             res = run_forked(run_plan_of(mod), small, 120)
             vs = [x for x in res.get('violations', ()) if x['class'] == cls]
             if not vs:
